@@ -39,6 +39,13 @@ type TransferSpec struct {
 }
 
 func (t TransferSpec) Pkt() Pkt {
+	if t.Fwd.SwapFirst {
+		acts := []string{swapActionJSON}
+		if len(t.Fees) > 0 {
+			acts = append(acts, feeActionJSON(t.Fees))
+		}
+		return NewPkt(t.Chan, t.Base, t.Amount, t.Receiver, MemoJSON(t.Fwd, acts...))
+	}
 	return NewPkt(t.Chan, t.Base, t.Amount, t.Receiver, Memo(t.Fwd, t.Fees))
 }
 
@@ -47,7 +54,11 @@ func (t TransferSpec) Label() string {
 	for _, f := range t.Fees {
 		fs = append(fs, f.String())
 	}
-	return fmt.Sprintf("T[%s %s%s -> %s fees=%v rcv=%s]", t.Chan, t.Amount, t.Base, t.Fwd, fs, shortAddr(t.Receiver))
+	sw := ""
+	if t.Fwd.SwapFirst {
+		sw = " swap"
+	}
+	return fmt.Sprintf("T[%s %s%s%s -> %s fees=%v rcv=%s]", t.Chan, t.Amount, t.Base, sw, t.Fwd, fs, shortAddr(t.Receiver))
 }
 
 // feeRef: the reference fee computation. Returns per-entry fee amounts and whether the fee action
@@ -122,27 +133,35 @@ func (w *World) expectedDelta(t TransferSpec, stray *big.Int) (bal Delta, supply
 	}
 	D := t.Base
 	acc := map[string]*big.Int{}
-	add := func(addr sdk.AccAddress, v *big.Int) {
-		k := addr.String() + "|" + D
+	addD := func(addr sdk.AccAddress, denom string, v *big.Int) {
+		k := addr.String() + "|" + denom
 		if acc[k] == nil {
 			acc[k] = new(big.Int)
 		}
 		acc[k].Add(acc[k], v)
 	}
+	add := func(addr sdk.AccAddress, v *big.Int) { addD(addr, D, v) }
 	esc := w.Escrow0
 	if t.Chan == "channel-1" {
 		esc = w.Escrow1
 	}
 	add(esc, new(big.Int).Neg(A))
-	fr := feeRef(A, t.Fees)
+	run, runDenom := A, D
+	if t.Fwd.SwapFirst {
+		// swapT: the running coin goes to the pool (carol), twice as many uusdc come from alice
+		add(w.Carol, A)
+		run, runDenom = new(big.Int).Mul(A, big.NewInt(2)), denomUSDC
+		addD(w.Alice, denomUSDC, new(big.Int).Neg(run))
+	}
+	fr := feeRef(run, t.Fees)
 	for i, f := range t.Fees {
 		to, e := sdk.AccAddressFromBech32(f.To)
 		if e != nil {
 			return nil, nil, nil, fmt.Errorf("fee recipient invalid")
 		}
-		add(to, fr.Entries[i])
+		addD(to, runDenom, fr.Entries[i])
 	}
-	out = new(big.Int).Sub(A, fr.Total)
+	out = new(big.Int).Sub(run, fr.Total)
 	supply = Delta{}
 	switch t.Fwd.Kind {
 	case "internal":
@@ -150,11 +169,11 @@ func (w *World) expectedDelta(t TransferSpec, stray *big.Int) (bal Delta, supply
 		if e != nil {
 			return nil, nil, nil, fmt.Errorf("internal recipient invalid")
 		}
-		add(to, out)
+		addD(to, runDenom, out)
 	case "hyp":
-		add(moduleAddr("warp"), out)
+		addD(moduleAddr("warp"), runDenom, out)
 	case "cctp":
-		supply[D] = new(big.Int).Neg(out).String()
+		supply[runDenom] = new(big.Int).Neg(out).String()
 	}
 	if stray.Sign() > 0 {
 		add(w.Orb, new(big.Int).Neg(stray))
